@@ -21,7 +21,8 @@ JEncDec(e) ==
      R("C16", "matching_key_decrypts_in_every_documented_form", r.setup /\ r.enc_ok /\ r.dec_ok, r.dec_forms_same, cls),
      R("C16", "wrong_private_key_rejected", r.setup /\ r.enc_ok, r.wrongkey_rejected /\ r.wrongkey_bytes_rejected, cls),
      R("C16", "modified_ciphertext_rejected", r.setup /\ r.enc_ok /\ r.nmods >= 1, Len(r.accepted_mods) = 0, cls),
-     R("C16", "encryption_is_randomised", r.setup /\ r.enc_ok, r.second_differs, cls) >>
+     R("C16", "encryption_is_randomised", r.setup /\ r.enc_ok, r.second_differs, cls),
+     R("C16", "kept_ciphertext_unaffected_by_next_encryption", r.setup /\ r.enc_ok, r.first_kept_unchanged, cls) >>
 
 \* regions of an identity encoding
 SameOutside(a, b, off, n) == Len(a) = Len(b) /\ \A i \in 1..Len(a) : (i <= off \/ i > off + n) => a[i] = b[i]
